@@ -417,7 +417,7 @@ make_enum(struct enum_s *restrict tgt, echs_instant_t proto, rrulsp_t rr)
 
 	/* get all hours */
 	for (bitint_iter_t Hi = 0UL;
-	     (tmp = bui31_next(&Hi, rr->H), Hi);) {
+	     nH < countof(tgt->H) && (tmp = bui31_next(&Hi, rr->H), Hi);) {
 		tgt->H[nH++] = (uint8_t)tmp;
 	}
 	if (!nH) {
@@ -425,7 +425,7 @@ make_enum(struct enum_s *restrict tgt, echs_instant_t proto, rrulsp_t rr)
 	}
 	/* get all minutes */
 	for (bitint_iter_t Mi = 0UL;
-	     (tmp = bui63_next(&Mi, rr->M), Mi);) {
+	     nM < countof(tgt->M) && (tmp = bui63_next(&Mi, rr->M), Mi);) {
 		tgt->M[nM++] = (uint8_t)tmp;
 	}
 	if (!nM) {
@@ -433,7 +433,7 @@ make_enum(struct enum_s *restrict tgt, echs_instant_t proto, rrulsp_t rr)
 	}
 	/* get all them seconds */
 	for (bitint_iter_t Si = 0UL;
-	     (tmp = bui63_next(&Si, rr->S), Si);) {
+	     nS < countof(tgt->S) && (tmp = bui63_next(&Si, rr->S), Si);) {
 		tgt->S[nS++] = (uint8_t)tmp;
 	}
 	if (!nS) {
